@@ -64,8 +64,7 @@ Lemma rsh_front (lsh : Z) (steps : nat) (a r1 : list Z)
     else sg * dgz b (vin a lsh) (zn asz + zn steps - 1 - zn i) + nthZ r1 i.
 Proof.
   intros Hl Ha rsz asz res_end res_start a_start a_out mid c0 HM.
-  set (V := vin a lsh).
-  assert (Ec0 : c0 = car b V 0 a_out).
+  assert (Ec0 : c0 = car b (vin a lsh) 0 a_out).
   { unfold c0. rewrite (carry_phase_car b Hb lsh a asz a_out Hl Ha).
     apply (car_low b lsh a a_out). unfold a_out, asz. lia. }
   assert (Hc0 : Z.abs c0 <= 2 ^ 62) by (rewrite Ec0; apply (car_vin_hr b Hb); auto).
@@ -73,17 +72,17 @@ Proof.
   assert (Hshape : mid = a_start /\ (a_out + mid = asz)%nat /\ (res_start - mid = res_end)%nat)
     by (unfold mid, a_out, a_start, res_start, res_end; lia).
   destruct Hshape as (S1 & S2 & S3).
-  assert (Hu : forall t, (t < mid)%nat -> nthZ a (a_start - t - 1) * 2 ^ lsh = V (a_out + t)).
+  assert (Hu : forall t, (t < mid)%nat -> nthZ a (a_start - t - 1) * 2 ^ lsh = vin a lsh (a_out + t)%nat).
   { intros t Ht. symmetry. apply vin_at; fold asz; unfold a_out; lia. }
   split; [|split; [exact M2|]].
-  - rewrite M1, Ec0. rewrite (car_piece b _ a lsh a_out mid Hu). fold V. rewrite S2. reflexivity.
+  - rewrite M1, Ec0. rewrite (car_piece b _ a lsh a_out mid Hu). rewrite S2. reflexivity.
   - intros i Hi. rewrite M3, S3. fold rsz.
     destruct (Nat.ltb_spec i rsz) as [_|]; [|lia]. rewrite Bool.andb_true_r.
     destruct (Nat.ltb_spec i res_end) as [Hi1|Hi1].
     + destruct (Nat.leb_spec res_end i); [lia|]. reflexivity.
     + destruct (Nat.leb_spec res_end i) as [_|]; [|lia]. cbn [andb].
       destruct (Nat.ltb_spec i res_start) as [Hi2|Hi2].
-      * rewrite Ec0, (dig_piece b _ a lsh a_out mid (res_start - 1 - i) Hu) by lia. fold V.
+      * rewrite Ec0, (dig_piece b _ a lsh a_out mid (res_start - 1 - i) Hu) by lia.
         rewrite dgz_nonneg by (unfold zn; lia). f_equal. f_equal. f_equal.
         unfold zn, a_out, a_start, res_start, res_end in *. lia.
       * rewrite dgz_neg; [lia|]. unfold zn, res_start in *. lia.
@@ -124,7 +123,7 @@ Proof.
                 ltac:(unfold mid; lia)) as (M1 & M2 & M3).
     split; [exact M1|]. split; [rewrite M2; exact L1|]. intros i. rewrite M3, L1, N1.
     match goal with |- context [if ?c then _ else _] => destruct c end; [|reflexivity].
-    rewrite N1. lia. }
+    destruct ov; lia. }
   destruct (mid_phase 64 ov b lsh a res_start a_start mid (r1, c0)) as [r2 c2].
   cbn [fst snd] in F1, F2, F3.
   set (gap := (steps - res_end)%nat).
@@ -196,7 +195,7 @@ Proof.
   { intros Hc0.
     destruct (mid_phase_sub_spec b Hb lsh a res_start a_start mid r0 c0 Hl Ha Hr Hc0
                 ltac:(unfold mid; lia)) as (M1 & M2 & M3).
-    split; [exact M1|]. split; [exact M2|]. intros i. rewrite M3.
+    split; [exact M1|]. split; [exact M2|]. intros i. rewrite M3. fold rsz.
     match goal with |- context [if ?c then _ else _] => destruct c end; [|reflexivity]. lia. }
   destruct (mid_phase_sub 64 b lsh a res_start a_start mid (r0, c0)) as [r2 c2].
   cbn [fst snd] in F1, F2, F3.
@@ -237,11 +236,10 @@ Proof.
   destruct (rsh_params_spec b k Hb1 Hk) as [Hl _].
   destruct (rsh_params b k) as [steps lsh]. cbn [fst snd] in *.
   set (sz := length r0). set (res_end := Nat.min steps sz).
-  set (V := vin r0 lsh).
   rewrite (carry_phase_car b Hb lsh r0 sz res_end Hl Hr).
-  pose proof (car_low b lsh r0 res_end ltac:(unfold res_end, sz; lia)) as CL. fold sz V in CL.
+  pose proof (car_low b lsh r0 res_end ltac:(unfold res_end, sz; lia)) as CL. fold sz in CL.
   rewrite CL. clear CL.
-  set (c0 := car b V 0 res_end).
+  set (c0 := car b (vin r0 lsh) 0 res_end).
   assert (Hc0 : Z.abs c0 <= 2 ^ 62) by (apply (car_vin_hr b Hb); auto).
   set (u := fun t : nat => nthZ r0 (sz - res_end - t - 1) * 2 ^ lsh).
   assert (Hu : vbound b u) by (apply vbound_limbs; auto).
@@ -254,10 +252,10 @@ Proof.
   specialize (D1 eq_refl).
   destruct (fold_left _ (seq 0 (sz - res_end)) (r0, c0)) as [r1 c1].
   cbn [fst snd] in D1, D2, D3.
-  assert (Hupiece : forall t, (t < sz - res_end)%nat -> u t = V (res_end + t)).
+  assert (Hupiece : forall t, (t < sz - res_end)%nat -> u t = vin r0 lsh (res_end + t)%nat).
   { intros t Ht. unfold u. symmetry. apply vin_at; fold sz; lia. }
-  assert (Ec1 : c1 = car b V 0 sz).
-  { rewrite D1. unfold c0. rewrite (car_piece b u r0 lsh res_end (sz - res_end) Hupiece). fold V.
+  assert (Ec1 : c1 = car b (vin r0 lsh) 0 sz).
+  { rewrite D1. unfold c0. rewrite (car_piece b u r0 lsh res_end (sz - res_end) Hupiece).
     f_equal. unfold res_end. lia. }
   destruct (zero_range_spec r1 0 res_end) as [Z1 Z2].
   set (zr := zero_range r1 0 res_end) in *.
@@ -287,7 +285,7 @@ Proof.
     destruct (Nat.leb_spec (sz - (sz - res_end)) i) as [_|]; [|lia].
     destruct (Nat.ltb_spec i sz) as [_|]; [|lia]. cbn [andb].
     unfold c0. rewrite (dig_piece b u r0 lsh res_end (sz - res_end) (sz - 1 - i) Hupiece) by lia.
-    fold V. rewrite dgz_nonneg by (unfold zn; lia). f_equal. unfold zn, res_end in *. lia.
+    rewrite dgz_nonneg by (unfold zn; lia). f_equal. unfold zn, res_end in *. lia.
 Qed.
 
 End Rsh.
